@@ -101,6 +101,10 @@ var c26Templates = [][]c26Item{
 	c26T("id", 4, "asg", "id", 3, "lc", "int", "comma"),              // 34 z = Foo{1,
 	c26T("lcmt", 2),                                                  // 35 //c
 	c26T("id", 3, "lp", "id", 1, "rp", "dot"),                        // 36 Foo(x).
+	c26T("id", 2, "asg", "id", 1, "slash", "lp", "id", 4, "rp"),      // 37 y = x/(z)
+	c26T("id", 2, "asg", "id", 1, "slash", "lp", "id", 4, "uop"),     // 38 y = x/(z +
+	c26T("id", 2, "asg", "id", 1, "slash", "str", 1),                 // 39 y = x/"a(\"[{"
+	c26T("id", 2, "asg", "id", 1, "slash", "rune", 1),                // 40 y = x/'('
 }
 
 // template subsets: the quick BFS uses all of them up to 3 lines
@@ -252,8 +256,14 @@ func c26Glue(a, b c26Item) bool {
 	oper := func(k string) bool { return k == "binop" || k == "uop" || k == "asg" || k == "not" }
 	opnd := func(k string) bool { return k == "id" || k == "str" || k == "rune" || k == "raw1" || k == "rawclose" }
 	switch {
-	case strings.Contains(a.K, "cmt") || strings.Contains(b.K, "cmt") || a.K == "slash" || b.K == "slash":
+	case strings.Contains(a.K, "cmt") || strings.Contains(b.K, "cmt"):
 		return false
+	case a.K == "slash":
+		// a division directly followed by a bracket, a quote or a name ("x/(y)", as gofmt writes
+		// nested expressions); never by something that could spell a comment or "/="
+		return b.K == "lp" || b.K == "id" || b.K == "str" || b.K == "rune" || b.K == "raw1"
+	case b.K == "slash":
+		return a.K == "id" || a.K == "rp" || a.K == "rb"
 	case a.K == "kws" || a.K == "kwc" || b.K == "kws" || b.K == "kwc" || a.K == "shebang":
 		return false
 	case a.K == "int" || b.K == "int": // "1." and "1.x" would be floats, "1x" is one token
